@@ -13,6 +13,7 @@ import (
 	"hash/fnv"
 	"os"
 	"runtime/debug"
+	"strconv"
 	"strings"
 	"time"
 
@@ -135,6 +136,19 @@ func Main(spec *Spec) {
 	if *mode == "replay" {
 		sim.HangAfter = 6 * time.Second // a single case takes milliseconds
 	}
+	procRun := -1
+	if *mode == "process" {
+		// replay of a whole worker process up to and including one run (sim.ProcRef)
+		c, err := sim.LoadCase(*casePath)
+		if err != nil || c.Proc == nil {
+			fmt.Fprintln(os.Stderr, "process replay: no process reference in", *casePath, err)
+			os.Exit(2)
+		}
+		sd, _ := strconv.ParseUint(c.Proc.Seed, 10, 64)
+		*seed, *worker, *tier = sd, c.Proc.Worker, c.Proc.Tier
+		*maxRuns, procRun = c.Proc.Run+1, c.Proc.Run
+		*mode = "explore"
+	}
 	sim.StartWatchdog(out, finish)
 	if *mode == "replay" {
 		c, err := sim.LoadCase(*casePath)
@@ -196,6 +210,7 @@ func Main(spec *Spec) {
 		r := sim.NewRng(rs)
 		c := spec.Gen(r, *tier)
 		c.Property, c.Engine, c.Seed = spec.ID, "C", rs>>12
+		c.Proc = &sim.ProcRef{Seed: strconv.FormatUint(*seed, 10), Worker: *worker, Run: ri, Tier: *tier}
 		sim.SetCurrent(c)
 		core.PoolReset(c.EnvSeed)
 		v, nontrivial := spec.Exec(c, out)
@@ -211,8 +226,11 @@ func Main(spec *Spec) {
 			}
 			out.RunHashes = append(out.RunHashes, fmt.Sprintf("%d:%s:%s", rs, c.LogHash, verdict))
 		}
-		if v != nil {
+		if v != nil && (procRun < 0 || ri == procRun) {
 			c.Violation = v
+			if procRun >= 0 {
+				c.ReplayMode = "process"
+			}
 			out.AddViolation(c)
 		} else if len(out.Samples) < 2 && nontrivial {
 			out.Samples = append(out.Samples, c)
